@@ -747,6 +747,10 @@ def run(ctx):
         outs = ctx.run_harness(binary, [{"op": "scratch_roundtrip", "seed": i} for i in range(6)]) or []
         valid_pks = [o["pk"] for o in outs if o and "pk" in o]
     cases = ctx.corpus() + ([] if ctx.replay else gen(ctx, valid_pks))
+    # other checks may have regenerated gen/Consts.v while cargo was waiting for its lock: make sure the model's
+    # .vo files the case files import are consistent again (no-op otherwise)
+    ctx.regen_consts()
+    ctx.coq_make(["props/C17.v"])
     ctx.pipeline(cases, binary, oracle, model_term, IMPORTS, nontrivial=nontrivial, show=show, shard_size=120,
                  relation="each repository parser == its transcription in model/Parsers.v / BootCache.v (outcome Ok/Err/Panic, value, error kind)")
 
